@@ -153,3 +153,25 @@ func Harness_C18_fixpoint() {
 		verifAssert("reachable-functions-are-program-functions", known)
 	}
 }
+
+// Harness_C18_generated_programs: FindReachable on the typed generated program family shared with C11/C12
+// (dataflow.VerifBuildPtrProgram): every function that runs in the program's execution - callees of static calls,
+// function values loaded from memory, closures, interface method implementations (exported and unexported methods,
+// with a function value passed as an argument of a result-less interface call), go and defer callees, functions called
+// inside those - must be reported reachable when main and init are the roots; the reported set stays inside the
+// program's functions.
+func Harness_C18_generated_programs() {
+	t1 := verifPick("t1", 0, 24)
+	variant := verifPick("variant", 0, 1)
+	split := verifPick("split", 0, 1)
+	w := dataflow.VerifBuildPtrProgram([]int{t1}, []int{variant}, 0, split)
+	state := &dataflow.AnalyzerState{Program: w.Prog, Logger: &config.LogGroup{}, Config: &config.Config{}}
+	all := FindReachable(state, false, false, nil)
+	verifReach("reachable-computed")
+	for f := range w.Executed {
+		verifAssert("function-executed-at-run-time-is-reported-reachable", all[f])
+	}
+	for f := range all {
+		verifAssert("reported-functions-belong-to-the-program", w.Funcs[f])
+	}
+}
